@@ -20,7 +20,7 @@ def run(rp):
         sys.path.insert(0, src)
     cmod = N.load_contract_module(rp["contract_module"])
     reg = cmod.REG
-    c = reg.contracts[rp["target"]]
+    c = reg.contracts[rp.get("contract_key") or rp["target"]]
     native = getattr(cmod, "NATIVE", {})
     if c.concretize is not None:
         # contract-provided translation of the solver model into realisable inputs (DESIGN 1.3 `concretize`)
@@ -130,6 +130,7 @@ def run(rp):
                 out.setdefault("eval_errors", []).append(f"post:{k}: {type(e).__name__}: {e}")
     want = rp.get("obligation", "")
     kindname = want.split("::", 1)[-1]
+    # (the obligation name of a contract variant is `func#variant::kind:clause`; the clause part is what is compared)
     if any(v.split(" ")[0] == kindname for v in out["violated"]):
         out["confirmed"] = True
         out["why"] = f"real function violates {kindname} on the model input"
